@@ -4,7 +4,7 @@ mutant), prints the score and writes tools/mutation-survivors.md with every muta
 repository suite and is not reported by a check, classified by the rules below (first match wins)."""
 import json, re, sys, collections
 
-files = sys.argv[1:] or ['/verif/.work/mutation/results-pass1.jsonl', '/verif/.work/mutation/results-pass2.jsonl', '/verif/.work/mutation/results-pass3.jsonl']
+files = sys.argv[1:] or ['/verif/.work/mutation/results-pass%d.jsonl' % i for i in range(1, 10)]
 final = {}
 for f in files:
     try:
@@ -28,8 +28,8 @@ RULES = [
   r'accessory/accessory\.go#.*@(12[5-9]|13[0-6])|accessory/container\.go#.*@(5[6-9]|6[0-2])|characteristic/characteristic\.go#.*@91|service/service\.go#.*@(4[1-9]|5[0-4])'),
  ('OOS-info  defaults of the accessory information service and the identify callback plumbing (no property speaks about them)',
   r'accessory/accessory\.go#'),
- ('OOS-getter  typed OnValueGet / OnValueRemoteUpdate convenience wrappers (C09/C10 constrain the generic callbacks)',
-  r'characteristic/(bool|float|int|string|bytes)\.go#.*(OnValueGet|fn\()'),
+ ('OOS-getter  Bytes.OnValueRemoteUpdate convenience wrapper for an empty value (the generic callbacks are what C09/C10 constrain)',
+  r'characteristic/bytes\.go#7:'),
  ('EQ-bound  comparison operator at a point where both sides coincide, or a bound that another clamp re-applies',
   r'characteristic/characteristic\.go#.*@(17[7-9]|18[0-9]|19[01]|25[89]|26[0-4]|27[2-9]|28[0-5])'),
  ('OOS-32bit  only differs where int is 32 bits', r'max = maxInt'),
@@ -58,8 +58,8 @@ RULES = [
   r'characteristic/characteristic\.go#77:'),
  ('EQ-boundary  > versus >= where the two differ only for an empty remainder',
   r'hap/chunked_writer\.go#5:|hap/connection\.go#87:'),
- ('LIVELOCK  the mutant makes hc spin or stall for ever; the monitors record their violations at once and ./check turns them into the verdict when the watchdog ends the run (verified by hand for hap/connection.go#58; the mutation driver of the earlier passes only saw the timeout)',
-  r'hap/connection\.go#58:|hap/session\.go#(2|3|25):'),
+ ('DEADLOCK-slow  Unsubscribe keeps the session lock: every later use of the session blocks. Run by hand C10 reports deadlock:hap.(*session).Decrypter after 5.5 minutes (the stall detector needs the whole workload to come to a halt); the 300 s limit of the mutation driver ended the run first',
+  r'hap/session\.go#25:'),
  ('EQ-handler  pair-start handler stored per session: set again on every request', r'hap/session\.go#15:'),
  ('EQ-storage  error-path cleanup of a failed write, read chunk size, listing details not observable through the API',
   r'util/file_storage\.go#|db/database\.go#'),
